@@ -35,7 +35,7 @@ example : evalPm2exp [2, 1, 0, 0] 1 = ⟨4, 0, false⟩ := by decide
 example : evalPm2rexp [1, 2, 3, 4, 5] 3 = ⟨4096 + 1024 + 192 + 32 + 5, 4096 - 1024 + 192 - 32 + 5, false⟩ := by decide
 example : evalPm1 [1, 9, 3, 0, 2] = ⟨15, 3, true⟩ := by decide
 
-/-- toom_couple_handling.c:34-70: from f(x) and |f(−x)| with its sign flag the routine leaves
+/-- toom_couple_handling.c:37-70: from f(x) and |f(−x)| with its sign flag the routine leaves
     ((f(x) − f(−x))/2 >> ps) + W·((f(x) + f(−x))/2 >> ns). -/
 theorem toom_couple_handling_val (pp np : Int) (nsign : Bool) (W : Int) (ps ns : Nat) :
     (coupleHandling pp np nsign W ps ns).val = coupleVal pp (if nsign = true then -np else np) W ps ns :=
@@ -45,7 +45,7 @@ theorem toom_couple_handling_val (pp np : Int) (nsign : Bool) (W : Int) (ps ns :
 example : (coupleHandling 17 9 false 1000 1 2).val = 2 + 1000 * 3 := by decide
 example : (coupleHandling 17 9 false 1000 1 2).halved = 26 := by decide
 
-/-- mpn_toom_interpolate_16pts (toom_interpolate_16pts.c:279-455), for ALL integer coefficients c0 … c15
+/-- mpn_toom_interpolate_16pts (toom_interpolate_16pts.c:273-445), for ALL integer coefficients c0 … c15
     (g_j = c_{2j+1} + W·c_{2j+2} are the pairs the routine finally adds at pp + (2j+1)·n), ALL W and both values of
     `half`: the C's sequence — removal of the leading and constant coefficients (`DO_mpn_sublsh_n` by 14, 28, 42,
     `DO_mpn_subrsh` by 2, 4, 6), the three sum/difference butterflies, the `submul_1`/`addmul_1` by 1028, 1300,
@@ -73,14 +73,14 @@ example : (interp16 1 4609835332865958 36417562 324546816487 64072 78613962 2705
 example : ∀ p ∈ (interp16 1 4609835332865958 36417562 324546816487 64072 78613962 270592483962 1116281604067002 16 1000 true).divs,
     p.2 ∣ p.1 := by decide
 
-/-- the `BINVERT_*` constants of toom_interpolate_16pts.c:106-139 (64-bit limbs) are the inverses modulo 2^64 of the
+/-- the `BINVERT_*` constants of toom_interpolate_16pts.c:107-135 (64-bit limbs) are the inverses modulo 2^64 of the
     odd parts of the divisors. -/
 theorem toom_interp16_binvert :
     BINVERT_9 * 9 % B = 1 ∧ BINVERT_255 * 255 % B = 1 ∧ BINVERT_2835 * 2835 % B = 1 ∧ BINVERT_42525 * 42525 % B = 1 ∧
     BINVERT_255x182712915 * (255 * 182712915) % B = 1 ∧ BINVERT_255x188513325 * (255 * 188513325) % B = 1 := by
   decide
 
-/-- toom8h_mul.c:96-150: for EVERY (an, bn) in the asserted domain (an ≥ bn ≥ 86, 4·an ≤ 13·bn) the cascade's
+/-- toom8h_mul.c:97-148: for EVERY (an, bn) in the asserted domain (an ≥ bn ≥ 86, 4·an ≤ 13·bn) the cascade's
     decomposition — including the two "recover from badly chosen splitting" repairs — satisfies the C's own ASSERTs
     0 < s ≤ n, 0 < t ≤ n, half || s + t > 3, n > 2; the degrees add up to 14 (half = 0) or 15 (half = 1); q ≥ 3;
     and the pointwise products are on n + 1 < bn limbs (A(∞)·B(∞) on s, t ≤ n limbs), so the recursion through
@@ -110,7 +110,7 @@ example : toom8h_mul (· * ·) (B ^ 116 - 3) 117 (B ^ 85 + 5 * B ^ 40 + 7) 86 = 
   toom8h_exact _ (fun _ _ => rfl) _ _ _ _ (by decide) (by decide) (by decide)
 example : toom8h_mul (· * ·) 5 85 7 85 = none := by decide          -- outside the domain the model refuses
 
-/-- mpn_toom8_sqr_n (toom8_sqr_n.c:54-154): from the documented minimum MPN_TOOM8_SQR_N_MINSIZE = 58 on, for ALL
+/-- mpn_toom8_sqr_n (toom8_sqr_n.c:55-154): from the documented minimum MPN_TOOM8_SQR_N_MINSIZE = 58 on, for ALL
     operand values, the ASSERTs of the decomposition hold and the result is a². -/
 theorem toom8_sqr_exact (sqr : Nat → Nat) (hsqr : ∀ x, sqr x = x * x) (a an : Nat) (h : an ≥ 58) :
     toom8_sqr_n sqr a an = some (a * a) := toom8_sqr_n_eq sqr hsqr a an h
